@@ -98,7 +98,7 @@ Proof.
     + apply aid_mutate.
     + apply is_owner_mutate. exact Logic.I.
   - apply del_sub.
-  - apply put_sub_fresh. destruct addmask; reflexivity.
+  - apply put_sub_fresh. match goal with |- context[if ?b then _ else _] => destruct b end; reflexivity.
 Qed.
 Transparent mutate.
 
